@@ -517,6 +517,42 @@ func addrRoot(v ssa.Value) ssa.Value {
 	}
 }
 
+// grownByAppendOnly: every value flowing back into the header phi from inside the loop is the phi
+// itself or append(<such a value>, ...), possibly merged by other phis.
+func grownByAppendOnly(phi *ssa.Phi, h *ssa.BasicBlock, li *loopInfo) bool {
+	seen := map[ssa.Value]bool{}
+	var ok func(v ssa.Value) bool
+	ok = func(v ssa.Value) bool {
+		if v == phi || seen[v] {
+			return true
+		}
+		seen[v] = true
+		switch x := v.(type) {
+		case *ssa.Call:
+			if b, isB := x.Call.Value.(*ssa.Builtin); isB && b.Name() == "append" && len(x.Call.Args) > 0 {
+				return ok(x.Call.Args[0])
+			}
+		case *ssa.Phi:
+			if !li.body[x.Block()] {
+				return false
+			}
+			for _, e := range x.Edges {
+				if !ok(e) {
+					return false
+				}
+			}
+			return true
+		}
+		return false
+	}
+	for i, p := range h.Preds {
+		if li.body[p] && !ok(phi.Edges[i]) {
+			return false
+		}
+	}
+	return true
+}
+
 // stableCells: if every store to heap n inside loop li goes through an address whose root is
 // defined outside the loop, return the root cells (ref terms / backing-array terms).
 func (fr *Frame) stableCells(h *ssa.BasicBlock, li *loopInfo, n string) []string {
@@ -543,10 +579,30 @@ func (fr *Frame) stableCells(h *ssa.BasicBlock, li *loopInfo, n string) []string
 			if li.body[in.Block()] {
 				// memory allocated inside the loop body did not exist at the loop head: stores
 				// into it leave every cell allocated before the loop alone
-				switch in.(type) {
+				switch ii := in.(type) {
 				case *ssa.Alloc, *ssa.MakeSlice, *ssa.MakeMap:
 					fr.freshRoots = true
 					continue
+				case *ssa.Call:
+					// (the array an append inside the loop may have allocated)
+					if b, isB := ii.Call.Value.(*ssa.Builtin); isB && b.Name() == "append" {
+						fr.freshRoots = true
+						continue
+					}
+				}
+				// a slice variable of this loop that is only ever replaced by append(itself, ...):
+				// its backing array is the one it had at the loop head or one that append allocated
+				// inside the loop
+				if phi, isPhi := r.(*ssa.Phi); isPhi && phi.Block() == h && grownByAppendOnly(phi, h, li) {
+					if pv, have := fr.vals[phi]; have && kindOf(pv.T) == KSlice {
+						fr.freshRoots = true
+						t := pv.F[0].Term
+						if !seen[t] {
+							seen[t] = true
+							out = append(out, t)
+						}
+						continue
+					}
 				}
 				// a load inside the loop from a field that the loop does not modify, through a
 				// pointer defined outside the loop, yields the same value in every iteration
